@@ -260,7 +260,8 @@ func (fr *Frame) builtin(st *State, b *ssa.Builtin, c *ssa.CallCommon, args []Va
 		ncap := vc.fresh("cap.append", "Int")
 		vc.assume(st, tLe(newLen, ncap))
 		resRef := tIte(fits, s.S[0], r)
-		resOff := tIte(fits, s.S[1], "0")
+		// named: an ite inside a quantifier pattern is not a legal trigger
+		resOff := vc.define("appoff", "Int", tIte(fits, s.S[1], "0"))
 		resCap := tIte(fits, s.S[3], ncap)
 		res := Val{T: s.T, S: []Term{resRef, resOff, newLen, resCap}}
 		tgt := vc.define("apptgt", "Int", resRef)
@@ -417,7 +418,8 @@ func init() {
 			vc.assume(st, fmt.Sprintf("(forall ((i!q Int)) (! (and (= (%s (%s i!q)) i!q) (= (and (<= 0 i!q) (< i!q %s)) (and (<= 0 (%s i!q)) (< (%s i!q) %s)))) :pattern ((%s i!q))))", inv, perm, ln, perm, perm, ln, perm))
 			vc.assume(st, fmt.Sprintf("(forall ((i!q Int)) (! (and (= (%s (%s i!q)) i!q) (= (and (<= 0 i!q) (< i!q %s)) (and (<= 0 (%s i!q)) (< (%s i!q) %s)))) :pattern ((%s i!q))))", perm, inv, ln, inv, inv, ln, inv))
 			for j, k := range vc.p.lay.of(slt.Elem()).Kinds {
-				hn := vc.get(st, vc.heapKey(k))
+				// named: the havocked heap term contains an ite, which is not a legal trigger
+				hn := vc.define("hsorted", "(Array Int (Array Int "+k.Sort()+"))", vc.get(st, vc.heapKey(k)))
 				ho := vc.get(old, vc.heapKey(k))
 				dst := tSel2(hn, s.S[0], tAdd(vc.elemOff(s.S[1], "i!q", es), tInt(int64(j))))
 				src := tSel2(ho, s.S[0], tAdd(vc.elemOff(s.S[1], sx(perm, "i!q"), es), tInt(int64(j))))
